@@ -133,6 +133,31 @@ def run(chk):
     ok = st == ["temp = original_value", "temp &= ~mask", "temp |= bit_value << min(bits)", "return temp"]
     chk.check(ok, "R2", f"{OD}:ODVariable.encode_bits | clear the field, OR the shifted value", enc.loc(), f"{st}")
 
+    # the result is a value of the variable's type: for a signed type the sign bit can be set and cleared through a bit field (the raw
+    # value written back must lie in the type's range, or the write is refused as "does not fit").  Decided by specialising encode_bits
+    # (name lookup dropped, len(self) bound to the type's width) for boundary probes.
+    import copy as _copy
+    from .common import partial_eval as _pe
+    from ..fold import RecordVal as _RV
+    from .. import oracles as _O
+    fn2 = _copy.deepcopy(enc.node)
+    fn2.body = [s_ for s_ in fn2.body if not isinstance(s_, ast.Try)]
+    dt_mod = repo.mod("canopen/objectdictionary/datatypes.py", "C20.R2")
+    probes = [("INTEGER16", 16, 0, [15], 1, -32768), ("INTEGER16", 16, -32768, [15], 0, 0), ("INTEGER16", 16, -1, [0, 1], 0, -4), ("INTEGER16", 16, 0x1234, [4, 5, 6, 7], 0xA, 0x12A4),
+              ("INTEGER8", 8, 0, [7], 1, -128), ("INTEGER32", 32, 0, [31], 1, -2 ** 31), ("INTEGER32", 32, -2 ** 31, [31], 0, 0),
+              ("UNSIGNED16", 16, 0, [15], 1, 32768), ("UNSIGNED8", 8, 0xFF, [7], 0, 0x7F)]
+    for tname, width, orig, bits_, val, want in probes:
+        code = folder.try_fold(ast.Name(id=tname, ctx=ast.Load()), Scope(dt_mod), None)
+        fn3 = ast.parse(src(fn2).replace("len(self)", str(width))).body[0]
+        r_ = _pe(folder, fn3, enc.mod, None, {"self": _RV({"data_type": code, "bit_definitions": {}}), "original_value": orig, "bits": bits_, "bit_value": val})
+        site = f"{OD}:ODVariable.encode_bits | {tname}: bits {bits_} := {val} on {orig}"
+        if r_[0] != "return":
+            chk.unk("R2", site, enc.loc(), f"encode_bits does not specialise: {r_}")
+            break
+        chk.check(r_[1] == want, "R2", site, enc.loc(),
+                  f"gives {r_[1]}, a value outside the range of {tname} (expected {want}): writing it back raises 'Value does not fit in specified type', so the sign bit of a signed "
+                  f"variable cannot be set or cleared through .bits" if not (-(1 << (width - 1)) <= r_[1] < (1 << width)) or r_[1] != want else "")
+
     # ------------------------------------------------------------------ R3 phys
     ep = repo.func(OD, "ODVariable.encode_phys", "C20.R3")
     dp = repo.func(OD, "ODVariable.decode_phys", "C20.R3")
